@@ -182,6 +182,29 @@ Definition glue_own (a o : list value) : option verdict :=
   | _, _ => None
   end.
 
+(* ---------- ke.quic (opt-in, C20_QUIC=1): the QUIC/SCION path, which is not modelled; only
+   the target clause of the property is evaluated (D-C20b is open in /repo) ---------- *)
+
+Fixpoint quic_ok (host : bytes) (steps obs : list value) : option bool :=
+  match steps, obs with
+  | [], [] => Some true
+  | VL recs :: steps', VL [VZ e; VB server; VZ port; VZ n] :: obs' =>
+    match dec_recs recs, quic_ok host steps' obs' with
+    | Some rs, Some okr =>
+      let a := scanned rs (length (wire rs)) in
+      Some (((negb (e =? 0)) || (bytes_eqb server (opt_bytes (a_server a) host) && (port =? opt_z (a_port a) 10123))) && okr)
+    | _, _ => None
+    end
+  | _, _ => None
+  end.
+
+Definition glue_quic (a o : list value) : option verdict :=
+  match a, o with
+  | [VB host; VL steps], [VL obs] =>
+    match quic_ok host steps obs with Some ok => Some (relational true ok) | None => None end
+  | _, _ => None
+  end.
+
 Definition glue_C20 (k : string) (a o : list value) : option verdict :=
   if is k "ke.hist" then
     match run_hist a o with Some v => Some v | None => Some (relational false true) end
@@ -189,6 +212,8 @@ Definition glue_C20 (k : string) (a o : list value) : option verdict :=
     match glue_target a o with Some v => Some v | None => Some (relational false true) end
   else if is k "ke.own" then
     match glue_own a o with Some v => Some v | None => Some (relational false true) end
+  else if is k "ke.quic" then
+    match glue_quic a o with Some v => Some v | None => Some (relational false true) end
   else None.
 
 Definition run_case (k : string) (a o : list value) : verdict := first_some [glue_C20] k a o.
